@@ -8,7 +8,8 @@
 From Coq Require Import List ZArith Bool Arith Lia Sorting.Sorted Sorting.Permutation.
 From PQ Require Import Merge.Model Merge.Instance Merge.AbstractProofs Merge.RunLengthProofs
   Merge.Merge2Proofs Merge.DedupeProofs Merge.SegmentsProofs Merge.TreeProofs Merge.InstanceProofs
-  Merge.Refine Merge.RefineMergeProofs Merge.RefineCutProofs Merge.RefineProofs Merge.ProgressProofs.
+  Merge.Refine Merge.RefineMergeProofs Merge.RefineCutProofs Merge.RefineProofs Merge.ProgressProofs
+  Merge.Nested Merge.NestedProofs.
 Import ListNotations.
 Open Scope Z_scope.
 
@@ -476,6 +477,55 @@ Proof.
 Qed.
 
 Print Assumptions C09_pinned_segments_refuted.
+
+(** ** Inputs that are themselves merged row groups (Merge/Nested.v)
+
+    A row group whose rows are computed -- the output of an earlier
+    MergeRowGroups, a deduplicated row group, a MultiRowGroup -- exposes as
+    ColumnChunks() the column chunks of its own inputs one after the other:
+    their first and last pages do not bound its first and last rows.  The
+    current code (merge.go rowsFollowColumnChunks) reports the bounds of such
+    an input as unavailable: whenever one of the non-empty inputs is of that
+    kind the plan is a single segment holding every input in argument order,
+    merged whole, to which (3) and (5) apply. *)
+Theorem C09_computed_input_single_segment : forall (cfg : list colcfg) (xs : list ninput) (x : ninput),
+  In x xs -> n_computed x = true -> n_rows x <> [] ->
+  nested_segments false cfg xs = [List.seq 0 (length xs)].
+Proof. exact nested_one_segment. Qed.
+
+Theorem C09_computed_input_not_refined : forall cfg ins layouts cuts computed,
+  some_computed ins computed = true ->
+  (length (c09_refine_nested cfg ins layouts cuts computed) <= 1)%nat.
+Proof. exact refine_nested_one_piece. Qed.
+
+(** The tree before commit 4f9d711 read the bounds of such an input off the
+    pages of its concatenated column chunks.  On the faithful model of that
+    code: A = 0..9 and B = 4..5 are merged (rows 0,1,2,3,4,4,5,5,6,7,8,9, the
+    column chunks are those of A then B), the result is merged with C = 7..8.
+    The pages give the merged input the "bounds" 0..5, C is taken for disjoint
+    and the plan concatenates: ...,9,7,8 is not sorted.  The current code
+    builds one segment and merges. *)
+Theorem C09_pinned_nested_refuted :
+  exists cfg (a b c : list keyL),
+    Forall (fun l => Sorted (fun x y => cmpL cfg x y <= 0) l) [a; b; c] /\
+    let ab := merged_input cfg 64 [a; b] in
+    let xs := [ab; (c, None)] in
+    Forall (fun x => Sorted (fun x y => cmpL cfg x y <= 0) (n_rows x)) xs /\
+    n_computed ab = true /\
+    nested_segments true cfg xs = [[0%nat]; [1%nat]] /\
+    ~ Sorted (fun x y => cmpL cfg x y <= 0) (map (@key keyL) (nested_rows true cfg 64 xs)) /\
+    nested_segments false cfg xs = [[0%nat; 1%nat]] /\
+    Sorted (fun x y => cmpL cfg x y <= 0) (map (@key keyL) (nested_rows false cfg 64 xs)).
+Proof.
+  exists exn_cfg, exn_A, exn_B, exn_C. split; [exact exn_leaves_sorted|]. cbv zeta.
+  split; [exact exn_inputs_sorted|]. split; [exact (proj2 exn_AB_rows)|].
+  split; [exact (proj1 exn_pinned_plan)|]. split; [exact exn_pinned_not_sorted|].
+  split; [exact (proj1 exn_current_plan)|exact (proj1 (proj2 exn_current_plan))].
+Qed.
+
+Print Assumptions C09_computed_input_single_segment.
+Print Assumptions C09_computed_input_not_refined.
+Print Assumptions C09_pinned_nested_refuted.
 
 (** ** Refinement: non-vacuity and the ">=" variant of cutAbove
 
